@@ -96,14 +96,11 @@ Proof.
       * exfalso. apply Hc1. simpl. auto.
       * exfalso. apply Hc2. simpl. auto.
     + rewrite map_map.
-      change (map (fun k0 => set_len x (fun l0 => (T - l0)%Q) (set_kids x [bleaf c1 T; bleaf c2 T] k0)) (k :: r))
-        with (set_len x (fun l0 => (T - l0)%Q) (set_kids x [bleaf c1 T; bleaf c2 T] k)
-              :: map (fun k0 => set_len x (fun l0 => (T - l0)%Q) (set_kids x [bleaf c1 T; bleaf c2 T] k0)) r).
+      set (F := fun k0 : btree => set_len x (fun q => (T - q)%Q) (set_kids x [bleaf c1 T; bleaf c2 T] k0)).
+      change (map F (k :: r)) with (F k :: map F r).
       apply fenc_node.
-      change (set_len x (fun l0 => (T - l0)%Q) (set_kids x [bleaf c1 T; bleaf c2 T] k)
-              :: map (fun k0 => set_len x (fun l0 => (T - l0)%Q) (set_kids x [bleaf c1 T; bleaf c2 T] k0)) r)
-        with (map (fun k0 => set_len x (fun l0 => (T - l0)%Q) (set_kids x [bleaf c1 T; bleaf c2 T] k0)) (k :: r)).
-      rewrite Forall_map. rewrite Forall_forall in *. intros k' Hk'. apply (IH k' Hk'); auto.
+      change (F k :: map F r) with (map F (k :: r)).
+      rewrite Forall_map. unfold F. rewrite Forall_forall in *. intros k' Hk'. apply (IH k' Hk'); auto.
       * intro Hi. apply Hxi. eapply inner_kid; eauto.
       * intro Hi. apply Hc1. eapply ids_kid; eauto.
       * intro Hi. apply Hc2. eapply ids_kid; eauto.
